@@ -25,6 +25,7 @@ func runC01(c *Ctx) {
 		c.R.Floor("C01.append", cfg.Name, n, 90)
 		ruleColumnShape(c, p)
 		ruleElementWidth(c, p, "C01.width")
+		ruleSwapRegion(c, p, "C01.swap")
 		ruleEndian(c, p, "C01.endian")
 		ruleClones(c, p, "C01.clones")
 		ruleReaderSource(c, p, "C01.source")
@@ -41,7 +42,10 @@ func runC01(c *Ctx) {
 	ruleExitGuards(c, p, "C01.guard")
 	ruleScale(c, p, "C01.scale")
 	ruleForwardUnconditional(c, p, "C01.forward-always")
-	ruleKeyWidth(c, p)
+	ruleTranslatePerElement(c, p, "C01.translate")
+	ruleStrLenUncapped(c, p, "C01.strlen")
+	ruleLimitSiblings(c, p, "C01.limits")
+	ruleKeyWidth(c, p, "C01.keywidth")
 	ruleDict(c, p, "C01.dict")
 	ruleRebuild(c, p, "C01.rebuild")
 	ruleForward(c, p)
@@ -165,8 +169,7 @@ func ruleBlockShape(c *Ctx, p *core.Program) {
 }
 
 // ruleKeyWidth: LowCardinality key width selection and per-width key columns.
-func ruleKeyWidth(c *Ctx, p *core.Program) {
-	rule := "C01.keywidth"
+func ruleKeyWidth(c *Ctx, p *core.Program, rule string) {
 	c.R.Rule(rule, "in ColLowCardinality.Prepare the cascade `n < K -> width b` is extracted and each branch must satisfy K-1 <= 2^b (keys are 0..n-1); in Prepare, EncodeColumn, WriteColumn and DecodeColumn every `case KeyUIntN` touches only the keysN column")
 	cfg := p.Cfg.Name
 	prep := p.Method(core.PkgProto, "ColLowCardinality", "Prepare")
@@ -212,6 +215,7 @@ func ruleKeyWidth(c *Ctx, p *core.Program) {
 			}
 		}
 	}
+	filledInBranch := map[int]bool{}
 	for _, sp := range sels {
 		{
 			b := sp.at.Block()
@@ -222,6 +226,29 @@ func ruleKeyWidth(c *Ctx, p *core.Program) {
 			}
 			nBr++
 			s := sp.at
+			// a branch that selects a width fills only that width's key column
+			if _, isStore := sp.at.(*ssa.Store); isStore {
+				want := sprintf("keys%d", bits)
+				for _, x := range sp.fn.Blocks {
+					if x != b && !b.Dominates(x) {
+						continue
+					}
+					for _, in := range x.Instrs {
+						fa, ok := in.(*ssa.FieldAddr)
+						if !ok {
+							continue
+						}
+						fname := fieldNameOnly(fa.X.Type(), fa.Field)
+						if strings.HasPrefix(fname, "keys") && fname != "keys" {
+							if fname != want {
+								c.R.Bad(rule, sprintf("Prepare/width%d/column", bits), cfg, p.Pos(fa.Pos()), sprintf("the branch that selects %d-bit keys fills %s: the encoder announces %d-bit keys and writes an empty or stale key column", bits, fname, bits))
+							} else {
+								filledInBranch[bits] = true
+							}
+						}
+					}
+				}
+			}
 			// the guarding comparison: the If in the single predecessor chain whose true edge leads here
 			if len(b.Preds) != 1 {
 				c.R.Unk(rule, sprintf("Prepare/width%d", bits), cfg, p.Pos(s.Pos()), "branch has several predecessors")
@@ -293,6 +320,10 @@ func ruleKeyWidth(c *Ctx, p *core.Program) {
 			}
 		}
 		// closures (WriteColumn) do not contain the switch; fine
+		if len(tbl) < 4 && mn == "Prepare" && len(filledInBranch) == 4 {
+			c.R.Ok(rule, "ColLowCardinality."+mn+"/switch", cfg, p.Pos(fn.Pos()), "each width-selecting branch fills its own key column")
+			continue
+		}
 		if len(tbl) < 4 {
 			c.R.Unk(rule, "ColLowCardinality."+mn+"/switch", cfg, p.Pos(fn.Pos()), sprintf("switch on the key has %d cases, expected 4", len(tbl)))
 			continue
@@ -1079,4 +1110,91 @@ func ruleForwardUnconditional(c *Ctx, p *core.Program, rule string) {
 	}
 	c.R.Count("state-forwarding wrapper methods["+cfg+"]", n)
 	c.R.Floor(rule, cfg, n, 8)
+}
+
+// ruleTranslatePerElement (C01 / C16): a dictionary translation loop emits this iteration's lookup.
+func ruleTranslatePerElement(c *Ctx, p *core.Program, rule string) {
+	c.R.Rule(rule, "where a proto function translates the elements of a slice through a map (raw enum number -> name on decode, name -> number in Prepare: a lookup keyed by the current element inside the loop), every value of the map's element type that the iteration appends or hands to an Append method is the result of that very lookup - not a loop-carried copy that is refreshed only when the key changes: a cache whose initial state coincides with a real key (raw value 0 with an empty name) emits the zero value for a leading run of that key and never rejects it")
+	cfg := p.Cfg.Name
+	n := 0
+	for _, fn := range p.Funcs() {
+		if pkgOf(fn) == nil || pkgOf(fn).Path() != core.PkgProto || fn.Blocks == nil {
+			continue
+		}
+		isElemLoad := func(x ssa.Value) bool {
+			u, ok := x.(*ssa.UnOp)
+			if !ok || u.Op != token.MUL {
+				return false
+			}
+			_, ok = u.X.(*ssa.IndexAddr)
+			return ok
+		}
+		for _, b := range fn.Blocks {
+			for _, in := range b.Instrs {
+				lk, ok := in.(*ssa.Lookup)
+				if !ok || !core.InLoop(lk) {
+					continue
+				}
+				mt, ok := lk.X.Type().Underlying().(*types.Map)
+				if !ok {
+					continue
+				}
+				if !core.DependsOn(lk.Index, isElemLoad, false) {
+					continue
+				}
+				isResult := func(v ssa.Value) bool {
+					v = stripConv(v)
+					if v == ssa.Value(lk) {
+						return true
+					}
+					e, ok := v.(*ssa.Extract)
+					return ok && e.Tuple == ssa.Value(lk) && e.Index == 0
+				}
+				// sinks: appended elements / Append arguments of the element type inside loops
+				var carried []ssa.Instruction
+				sinks := 0
+				for _, b2 := range fn.Blocks {
+					for _, in2 := range b2.Instrs {
+						call, ok := in2.(ssa.CallInstruction)
+						if !ok || !core.InLoop(in2) {
+							continue
+						}
+						var vals []ssa.Value
+						if bi, ok := call.Common().Value.(*ssa.Builtin); ok && bi.Name() == "append" && len(call.Common().Args) == 2 {
+							vals = variadicElems(call.Common().Args[1])
+						} else if f := core.CalleeFunc(call); f != nil && strings.HasPrefix(f.Name(), "Append") {
+							vals = call.Common().Args
+						}
+						for _, v := range vals {
+							s := stripConv(v)
+							if isResult(s) {
+								sinks++
+								continue
+							}
+							if ph, ok := s.(*ssa.Phi); ok {
+								for _, e := range ph.Edges {
+									if isResult(e) {
+										sinks++
+										carried = append(carried, in2)
+									}
+								}
+							}
+						}
+					}
+				}
+				if sinks == 0 {
+					continue
+				}
+				n++
+				key := core.FuncName(fn) + "/" + mt.String()
+				if len(carried) > 0 {
+					c.R.Bad(rule, key, cfg, p.Pos(carried[0].Pos()), "the value emitted for an element is a loop-carried copy of an earlier lookup, refreshed only on some iterations: elements equal to the cache's initial key are emitted as the zero value without ever being looked up")
+				} else {
+					c.R.Ok(rule, key, cfg, p.Pos(lk.Pos()), sprintf("%d emitted value(s) are this iteration's lookup", sinks))
+				}
+			}
+		}
+	}
+	c.R.Count("dictionary translation loops["+cfg+"]", n)
+	c.R.Floor(rule, cfg, n, 2)
 }
